@@ -533,6 +533,10 @@ def run(ctx):
     mesh = mesh_programs(ctx)
     ctx.notes["mesh_programs"] = len(mesh)
     progs += env_progs + directed + mesh
+    for p in progs:
+        # the separate steps succeed on the same input: an all-in-one run the design accepts
+        # must succeed as well (fault-free programs only, pipeline_check.must_ops)
+        p.setdefault("mustops", ["AllInOne"])
     res = pc.run_and_judge(ctx, progs, workers=12, chunk=120, label="gen")
     agree = 0
     for p, case, (st, clause, pos) in res:
